@@ -106,3 +106,81 @@ func VerifC15_round_fault() {
 	vAssert(err == nil, "C15: no error without a divider fault")
 	vReach("nofault")
 }
+
+// C15 / C19 (v1): a run from New in which the divider (sum-preserving up to then) breaks the sum
+// rule at one later call. Nobody reads Err() meanwhile: the discipline must stop handing out, wait
+// for the releases, close its channels and leave exactly ErrDividerBad on Err().
+// gosym: mode=int
+func VerifC15_v1_run_fault() {
+	n := vParam("n", 2)
+	H := uint(vParam("H", 2))
+	J := vParam("J", 1)
+	e := &vEnv{n: n, faultAt: -1, H: H, honest: true}
+	vE = e
+	all := make([]uint, 0, n+1)
+	for i := 0; i < n+1; i++ {
+		all = append(all, vNondetUint("p"))
+	}
+	vDistinct(all...)
+	for i := 1; i < n; i++ {
+		vAssume(all[i-1] > all[i])
+	}
+	e.ps, e.foreign = all[:n], all[n]
+	e.removed = make([]bool, n)
+	inputs := map[uint]<-chan int{}
+	for i := 0; i < n; i++ {
+		ch := make(chan int, J+1)
+		e.ins = append(e.ins, ch)
+		inputs[e.ps[i]] = ch
+		for k := 0; k < J; k++ {
+			ch <- vNondetInt("item")
+		}
+		if vChoose("closed", 2) == 1 {
+			close(ch)
+		}
+	}
+	e.fb = make(chan uint, 1)
+	e.out = make(chan Prioritized[int], 1)
+	e.faultAt = 1 + vChoose("fault", 3) // call 0 is the constructor's division
+	if uint(n) > H {
+		vExpect("NOREACH", "ok") // fewer handlers than priorities: some share is zero, outside the documented precondition
+	}
+	d, err := New(Opts[int]{Divider: vStubDivider, Feedback: e.fb, HandlersQuantity: H, Inputs: inputs, Output: e.out})
+	vAssume(err == nil)
+	// the documented precondition of v1: every share >= 1 (IsNonFatalConfig)
+	for _, p := range e.ps {
+		vAssume(d.strategic[p] >= 1)
+	}
+	e.d = d
+	e.G = make([]uint, n)
+	vSink(e.out)
+	e.monitors()
+	vOnBlock(e.fb, func() {
+		if vSumAssert("in flight", e.G...) == 0 {
+			vDecline() // nothing left to release
+			return
+		}
+		i := vChoose("release", e.n)
+		vAssume(e.G[i] >= 1)
+		e.fb <- e.ps[i]
+	})
+	vTickBudget(6)
+	vFairTicks()
+	vSleepBudget(3)
+	vExpect("HORIZON", "ok") // no fault happened and nobody asked the discipline to stop: it idles (v1 never ends by itself)
+	vExpect("TICK-HORIZON", "ok")
+	vExpect("BLOCKED", "fail:C15/C19: after a divider fault the discipline terminates once the in-flight items are released, whether or not Err() is being read")
+	vTermWatch(d.err)
+	vRunSpawned(0)
+	vRunLeftoverSpawned()
+	vReach("terminated")
+	vAssert(e.faultSeen, "C07: without Stop/cancel/GracefulStop/fault the v1 discipline does not terminate")
+	vAssert(e.sendsAfterFault == 0, "C15: nothing is handed out after a divider fault")
+	vAssert(vIsClosed(d.err), "C15/C19: error termination closes err")
+	vAssert(len(d.err) == 1, "C15: exactly one error value is left on Err()")
+	v, ok := <-d.err
+	vAssert(vAnd(ok, v == ErrDividerBad), "C15: the reported error is ErrDividerBad")
+	g := vSumAssert("in flight at termination", e.G...)
+	vAssert(g == 0, "C15: the discipline terminates only after the in-flight items were released")
+	vAssert(vTickerStops() == 1, "C19: the interrupter is stopped")
+}
